@@ -80,3 +80,36 @@ namespace {
     (void)w4;(void)w5;(void)w6;(void)M6;(void)M7;(void)S2;(void)S3;(void)M8;(void)M9;(void)w7;
   }
 }
+
+// ---- added for R-DIM / R-PAIR (task dim): operators and members nobody in the build instantiates
+#include <gnu_gama/adj/icgs.h>
+namespace GNU_gama {
+  typedef Mat<double, int, E_>      M_;
+  typedef MatBase<double, int, E_>  MB_;
+  typedef Vec<double, int, E_>      V_;
+  typedef SymMat<double, int, E_>   S_;
+  typedef TransMat<double, int, E_> TM_;
+  typedef TransVec<double, int, E_> TV_;
+  template class TransVec<double, int, E_>;
+  template TM_ TM_::operator+(const TM_&) const;
+  template TM_ TM_::operator-(const TM_&) const;
+  template M_  operator+ <double, int, E_>(const MB_&, const MB_&);
+  template M_  operator- <double, int, E_>(const MB_&, const MB_&);
+  template S_  operator+ <double, int, E_>(const S_&, const S_&);
+  template S_  operator- <double, int, E_>(const S_&, const S_&);
+  template S_& operator+=<double, int, E_>(S_&, const S_&);
+  template S_& operator-=<double, int, E_>(S_&, const S_&);
+  template S_  operator* <double, int, E_>(const S_&, const S_&);
+  template M_  operator+ <double, int, E_>(const M_&, const TM_&);
+  template M_  operator- <double, int, E_>(const M_&, const TM_&);
+  template M_  operator+ <double, int, E_>(const TM_&, const M_&);
+  template M_  operator- <double, int, E_>(const TM_&, const M_&);
+  template TV_ operator* <double, int, E_>(const V_&, const TM_&);
+  template M_  operator* <double, int, E_>(const TM_&, const TM_&);
+  template M_  trans     <double, int, E_>(const TM_&);
+  template TV_ operator* <double, int, E_>(const TV_&, const MB_&);
+  template TV_ operator* <double, int, E_>(const TV_&, const M_&);
+  template std::istream& operator>> <double, int, E_>(std::istream&, VecBase<double, int, E_>&);
+  template void ICGS::reset<M_>(const M_&, int, int);
+  template void ICGS::getMat<M_>(M_&) const;
+}
